@@ -35,7 +35,7 @@ VARIABLES heap,     \* the array _queue: sequence of events [id, ts, kind]
 
 hvars == <<heap, nextId, out>>
 
-Prec(k) == CASE k = "Unplug" -> 0 [] k = "Plugin" -> 10 [] k = "Recompute" -> 20
+Prec(k) == CASE k = "Unplug" -> 0 [] k = "Plugin" -> 10 [] k = "Recompute" -> 20 [] k = "Urgent" -> -1000 [] k = "Base" -> 1000
 
 \* (ts_a, a) < (ts_b, b) in Python: the first components decide unless equal; then a == b is
 \* identity (distinct objects are unequal) and a < b is Event.__lt__: precedence.
@@ -133,7 +133,7 @@ RoundTrip ==
 Next ==
     \/ \E ts \in Ts, k \in Kinds : Add(ts, k)
     \/ \E b \in Batches : AddMany(b)
-    \/ \E b \in Batches : \E k \in 0..(Len(b) - 1) : AddManyFail(b, k)
+    \/ \E b \in Batches : Len(b) >= 2 /\ AddManyFail(b, Len(b) - 1)
     \/ GetEvent
     \/ \E t \in Probes : GetCurrent(t)
     \/ QLen \/ QEmpty \/ QLastTs \/ RoundTrip
